@@ -11,7 +11,8 @@ from typing import Any, Final, Literal, Self
 
 from pymap.concurrent import Event, ReadWriteLock
 from pymap.context import subsystem
-from pymap.exceptions import MailboxHasChildren, NotSupportedError
+from pymap.exceptions import MailboxHasChildren, MailboxNotFound, \
+    NotSupportedError
 from pymap.flags import FlagOp
 from pymap.interfaces.message import CachedMessage
 from pymap.listtree import ListTree
@@ -483,6 +484,7 @@ class MailboxSet(MailboxSetInterface[MailboxData]):
             raise exc_type(name) from exc
 
     async def set_subscribed(self, name: str, subscribed: bool) -> None:
+        self._check_name(name, MailboxNotFound)
         async with Subscriptions.with_write(self._path) as subs:
             subs.set(name, subscribed)
 
